@@ -428,6 +428,10 @@ class FParser2IR(GenericVisitor):
         # This should go away once fparser has a basic symbol table, see
         # https://github.com/stfc/fparser/issues/201 for some details
         _type = kwargs['scope'].symbol_attrs.lookup(name.name)
+        if _type is None and name.parent is not None:
+            # A derived type member that is not yet in the symbol table (e.g., the first
+            # reference to a type-bound function): derive the type from the parent's type
+            _type = name._lookup_type(kwargs['scope'])  # pylint: disable=protected-access
         if _type is None and (definition := self.definitions.get(name.name)):
             # We don't have any type information for this, which means it has
             # not been declared locally. Check the definitions for enriched
